@@ -391,11 +391,18 @@ def c18(ctx):
 @check("C19")
 def c19(ctx):
     model_check(ctx, "MCBarrett.tla", "MCBarrett.cfg" if not ctx.thorough else "MCBarrett_all.cfg")   # two conditional subtractions suffice
+    # limb-level transcription (truncated q2 product, shift/mask cuts, borrow chains, Mul's q1/r1 split), every x below 2^(2 KB)
+    model_check(ctx, "ModmLimbs.tla", "ModmLimbs_t.cfg" if ctx.thorough else "ModmLimbs_q.cfg", timeout=7200)
+    for neg, what in (("ModmLimbs_neg1.cfg", "a single conditional subtraction"), ("ModmLimbs_neg2.cfg", "a q2 product without the carry of column NL-2")):
+        ok, _ = model_check(ctx, "ModmLimbs.tla", neg, expect_ok=False)
+        if ok:
+            raise Infra("model control failed: ModmLimbs accepts " + what)
     model_check(ctx, "MCRecode.tla", "MCRecode.cfg")
     num_family(ctx, NUM_CONFIGS_THOROUGH if ctx.thorough else NUM_CONFIGS_QUICK)
     finish(ctx, "scalar layer of both layouts: Expand of 0..64-byte strings (kL+delta for 14 quotient sizes, 2^252/253/255/256/257/264/504/511/512 +-, qL and qL-1, random), ExpandRaw, Add/Mul on edge and random pairs of [0,L)^2, "
            "Contract, reduce, signed radix-16 recoding (nibble patterns 7/8/9/f with neighbours 0/7/8/f at every third position, boundary values, clamped scalars), sliding windows 5 and 7 (patterns, boundaries, random), "
-           "the vartime helpers; TLC checks exact residues / digit sums / digit ranges in BigNat and digit-for-digit equality with Recode!SignedLoop; R1: recodings exact for all 16-bit scaled scalars", NUM_ASSUME)
+           "the vartime helpers; TLC checks exact residues / digit sums / digit ranges in BigNat and digit-for-digit equality with Recode!SignedLoop; R1: recodings exact for all 16-bit scaled scalars; "
+           "Barrett reduction abstractly (HAC 14.42) and at limb level (ModmLimbs: truncated product, cuts, borrow chains, Mul, Add) for every input at the scaled size", NUM_ASSUME)
 
 
 @check("C16")
